@@ -1354,6 +1354,20 @@ Proof.
   destruct o; try apply IH. rewrite IH. apply fold_push_nodes.
 Qed.
 
+(* no link from i is cut: no send of i fails *)
+Lemma flat_map_nil : forall (A B : Type) (f : A -> list B) l, (forall x, f x = []) -> flat_map f l = [].
+Proof. intros A B f l H. induction l as [|x r IH]; simpl; auto. rewrite H, IH. reflexivity. Qed.
+Lemma send_fail_nocut : forall c i n j, (forall k, is_cut c i k = false) -> send_fail c i n j = [].
+Proof. intros c i n j H. unfold send_fail. rewrite H. reflexivity. Qed.
+Lemma dispatch_fails_nocut : forall outs c i n, (forall k, is_cut c i k = false) -> dispatch_fails c i n outs = [].
+Proof.
+  induction outs as [|o r IH]; intros c i n H; simpl; auto.
+  destruct o; auto. rewrite (IH c i n H), app_nil_r.
+  apply flat_map_nil. intros x. apply send_fail_nocut; auto.
+Qed.
+Lemma is_cut_set_node : forall c i cn a b, is_cut (set_node c i cn) a b = is_cut c a b.
+Proof. reflexivity. Qed.
+
 Lemma aget_set_node_eq : forall c i cn, aget i (c_nodes (set_node c i cn)) = Some cn.
 Proof. intros. unfold set_node. simpl. apply aget_aset_eq. Qed.
 Lemma aget_set_node_neq : forall c i k cn, k <> i -> aget k (c_nodes (set_node c i cn)) = aget k (c_nodes c).
@@ -1365,19 +1379,21 @@ Theorem not_authorized_isolates : forall c i cn j s ts t0 rest now orcs,
   aget i (c_nodes c) = Some cn -> cn_up cn = true ->
   cn_inbox cn = Auth (ok_origin j) A_NOT_AUTHORIZED ts t0 :: rest ->
   aget j (n_insts (cn_node cn)) = Some s -> is_state s = CHECKING -> is_checking_time s < ts ->
+  (forall k, is_cut c i k = false) ->
   exists c' cn', cstep c (ANotify i now orcs) = Ok c' /\ aget i (c_nodes c') = Some cn' /\
     inst_state (cn_node cn') j = Some (if Z.eqb j (n_me (cn_node cn)) then ISTOPPED else ISOLATED) /\
     cn_inbox cn' = rest /\ cn_up cn' = true /\
     (forall k, k <> i -> aget k (c_nodes c') = aget k (c_nodes c)).
 Proof.
-  intros c i cn j s ts t0 rest now orcs Hi Hup Hin Hg Hs Ht.
+  intros c i cn j s ts t0 rest now orcs Hi Hup Hin Hg Hs Ht Hnc.
   destruct (auth_not_authorized_step (cn_node cn) j s ts now Hg Hs Ht) as [n' [o [E Hst]]].
   unfold cstep. rewrite Hi, Hin, Hup. cbv zeta. unfold apply_step. simpl cn_node. rewrite E.
   simpl cn_pending. simpl cn_up. simpl cn_cnt. simpl cn_inbox.
   pose proof (dispatch_nodes o c i n' (cn_pending cn)) as Hd.
   destruct (dispatch c i n' o (cn_pending cn)) as [c1 pend]. simpl in Hd.
   eexists. eexists. split; [reflexivity|]. split; [apply aget_set_node_eq|].
-  split; [exact Hst|]. split; [reflexivity|]. split; [reflexivity|].
+  split; [exact Hst|]. split; [simpl; rewrite (dispatch_fails_nocut o c i n' Hnc); apply app_nil_r|].
+  split; [reflexivity|].
   intros k Hk. rewrite aget_set_node_neq by auto. rewrite Hd. reflexivity.
 Qed.
 
@@ -1386,7 +1402,8 @@ Lemma notify_ident : forall c i cn p rest now orcs,
   cstep c (ANotify i now orcs)
   = Ok (set_node c i (mkCnode (cn_node cn) true (cn_cnt cn) rest (cn_pending cn))).
 Proof.
-  intros c i cn p rest now orcs Hi Hup Hin. unfold cstep. rewrite Hi, Hin, Hup. reflexivity.
+  intros c i cn p rest now orcs Hi Hup Hin. unfold cstep. rewrite Hi, Hin, Hup.
+  unfold apply_step. simpl. rewrite app_nil_r. reflexivity.
 Qed.
 
 (* (3) the composition *)
@@ -1401,7 +1418,7 @@ Theorem reciprocal_isolation : forall c i j now now1 now2 orcs1 orcs2 cn cj rest
   cn_pending cn = j :: rest -> cn_inbox cn = [] ->
   aget j (n_insts (cn_node cn)) = Some s -> is_state s = CHECKING -> is_checking_time s < now ->
   aget j (c_nodes c) = Some cj -> cn_up cj = true ->
-  is_cut c i j = false -> is_cut c j i = false ->
+  (forall k, is_cut c i k = false) -> is_cut c j i = false ->
   inst_state (cn_node cj) i = Some ISOLATED ->
   exists c' cn',
     crun_state c [AHandshake i now; ANotify i now1 orcs1; ANotify i now2 orcs2] = Ok c' /\
@@ -1409,7 +1426,8 @@ Theorem reciprocal_isolation : forall c i j now now1 now2 orcs1 orcs2 cn cj rest
     cn_inbox cn' = [] /\ cn_up cn' = true /\
     (forall k, k <> i -> aget k (c_nodes c') = aget k (c_nodes c)).
 Proof.
-  intros c i j now now1 now2 orcs1 orcs2 cn cj rest s Hi Hup Hme Hp Hin Hg Hs Ht Hj Hupj Hc1 Hc2 Hiso.
+  intros c i j now now1 now2 orcs1 orcs2 cn cj rest s Hi Hup Hme Hp Hin Hg Hs Ht Hj Hupj Hnc Hc2 Hiso.
+  pose proof (Hnc j) as Hc1.
   assert (Hni : not_isolated (cn_node cn) j = true).
   { unfold not_isolated, inst_state. rewrite Hg, Hs. reflexivity. }
   assert (Hne : j <> i).
@@ -1426,7 +1444,7 @@ Proof.
   set (cn2 := mkCnode (cn_node cn) true (cn_cnt cn) _ rest).
   set (c2 := set_node c1 i cn2).
   destruct (not_authorized_isolates c2 i cn2 j s now now [] now2 orcs2 (aget_set_node_eq c1 i cn2) eq_refl eq_refl
-                                    Hg Hs Ht) as [c' [cn' [E [Hi' [Hst [Hin' [Hup' Hoth]]]]]]].
+                                    Hg Hs Ht Hnc) as [c' [cn' [E [Hi' [Hst [Hin' [Hup' Hoth]]]]]]].
   rewrite E. exists c', cn'. split; [reflexivity|]. split; auto. split.
   - rewrite Hst. simpl cn_node. rewrite Hme. destruct (Z.eqb_spec j i); [contradiction | reflexivity].
   - split; auto. split; auto. intros k Hk. rewrite (Hoth k Hk). unfold c2, c1.
